@@ -3,11 +3,27 @@
  * control block (lib/model_signal.c part B, no environment), std::deque ready queue as a concrete ring, typed coroutine frames.
  * Bounds: 1..3 coroutine listeners (+1 arriving between the signals) + 1 callback listener, exactly 2 emissions with symbolic values
  * (second one by value or by lvalue reference), then destruction of every handle; single thread; weak CAS never fails spuriously. */
+/* std::atomic<cocls::awaiter*> at member-function level: sequential, orders ignored, a weak CAS never fails spuriously (retry loops under
+ * spurious failure and interference are verified with loop contracts in the contract units).  The cell is read and written as the pointer
+ * it is: CBMC does not fold (T *)((cv_i64)&frame + k) back, so instruction-level i64 atomics would turn an awaiter that lives inside a
+ * coroutine frame into an opaque pointer and the devirtualised resume() would fork without end. */
+unsigned gh_ap_ops;
+#ifdef CV_HAS_ap_aw_load
+AWT *ap_aw_load(ATOMAW *a, cv_i32 mo) { gh_ap_ops++; return (AWT *)a->_M_b._M_p; }
+#endif
+#ifdef CV_HAS_ap_aw_xchg
+AWT *ap_aw_xchg(ATOMAW *a, AWT *v, cv_i32 mo) { gh_ap_ops++; AWT *old = (AWT *)a->_M_b._M_p; a->_M_b._M_p = v; return old; }
+#endif
+#ifdef CV_HAS_ap_aw_cas
+cv_i1 ap_aw_cas(ATOMAW *a, AWT **expected, AWT *desired, cv_i32 so, cv_i32 fo) { gh_ap_ops++; AWT *old = (AWT *)a->_M_b._M_p;
+  if (old == *expected) { a->_M_b._M_p = desired; return 1; } *expected = old; return 0; }
+#endif
 #define LOG(i) (&(*G_LOG)[i])
 #ifdef DRIVE_main
 void h_drive(void) {
   int nlist = nondet_unsigned(), v1 = nondet_unsigned(), v2 = nondet_unsigned(), by_ref = nondet_bool(), late = nondet_bool(), lim = nondet_unsigned();
-  nlist = DRIVE_NLIST; late = DRIVE_LATE; lim = DRIVE_LIM; by_ref = DRIVE_BYREF;            /* concrete shapes (one unit per shape): the suspend-point merge is too expensive for symbolic list lengths */
+  __CPROVER_assume(lim >= 1 && lim <= 3);
+  nlist = DRIVE_NLIST; late = DRIVE_LATE;            /* concrete shapes (one unit per shape): the suspend-point merge is too expensive for symbolic list lengths */
   *G_CB_LIMIT = lim;
   unsigned a0 = gh_allocs, f0 = gh_frees;
   c15_drive(nlist, v1, v2, by_ref, late);
